@@ -395,8 +395,11 @@ func Main() {
 			os.Exit(3)
 		}
 		tier, seed, only = rf.Tier, rf.Seed, rf.Index
-	} else if t := os.Getenv("VERIF_TIER"); t == "quick" || t == "thorough" {
-		tier = t
+	} else if tier != "quick" && tier != "thorough" {
+		// the tier named on the command line wins; VERIF_TIER is only a fallback
+		if t := os.Getenv("VERIF_TIER"); t == "quick" || t == "thorough" {
+			tier = t
+		}
 	}
 	if tier != "quick" && tier != "thorough" {
 		fmt.Fprintf(os.Stderr, "bad tier %q\n", tier)
